@@ -138,6 +138,27 @@ func (c Cand) funcSrc(name string) string {
 		return fmt.Sprintf("let %s (u:%s) (o:Outer) =\n  match o with\n  | First ->\n%s  | _ -> 0\n", name, targ, c.matchSrc("u", 4))
 	case "strarmdefault":
 		return fmt.Sprintf("let %s (u:%s) (s:string) =\n  match s with\n  | \"a\" ->\n%s  | _ -> 0\n", name, targ, c.matchSrc("u", 4))
+	case "ctortarget", "unannotatedctor", "genericfn":
+		// the target is built on the spot from a payload case, so for a generic union its type argument is still
+		// an inference variable when the match is parsed: the cases of a union do not depend on it
+		p := -1
+		for i := 0; i < c.N; i++ {
+			if c.hasPayload(i) {
+				p = i
+				break
+			}
+		}
+		if p < 0 {
+			return fmt.Sprintf("let %s (u:%s) =\n%s", name, targ, c.matchSrc("u", 2))
+		}
+		switch c.Ctx {
+		case "ctortarget":
+			return fmt.Sprintf("let %s (n:int) =\n%s", name, c.matchSrc(caseName(p)+" n", 2))
+		case "unannotatedctor":
+			return fmt.Sprintf("let %s d =\n  let o = %s d\n%s", name, caseName(p), c.matchSrc("o", 2))
+		default:
+			return fmt.Sprintf("let wrap%s x = %s x\n\nlet %s (n:int) =\n%s", name, caseName(p), name, c.matchSrc("wrap"+name+" n", 2))
+		}
 	case "earlierarmbinder":
 		// an EARLIER arm of the enclosing match binds its payload under the name of the matched parameter;
 		// the binding ends with that arm, so the match below still sees u:U
@@ -600,7 +621,7 @@ func TestMatchExhaustive(t *testing.T) {
 
 // --- sampled contexts ------------------------------------------------------------------
 
-var ctxs = []string{"letrhs", "ifbranch", "elsebranch", "outerarm", "outerlastarm", "outerarmdefault", "strarmdefault", "lambda", "localfunc", "letbound", "direct", "earlierarmbinder", "afterbinder"}
+var ctxs = []string{"letrhs", "ifbranch", "elsebranch", "outerarm", "outerlastarm", "outerarmdefault", "strarmdefault", "lambda", "localfunc", "letbound", "direct", "earlierarmbinder", "afterbinder", "ctortarget", "unannotatedctor", "genericfn"}
 var decls = []string{"plain", "plain", "generic", "andgroup", "otherfile"}
 
 func TestMatchContexts(t *testing.T) {
